@@ -25,8 +25,9 @@ CLASSES["Event"].methods["is_same_event"] = C("statemachine.event:Event.is_same_
 from pyvc.core import REF_HOOKS  # noqa: E402
 REF_HOOKS.append(lambda v: SAMEEV(v.recv.e) if isinstance(v, BM) and v.name == "is_same_event" and isinstance(v.recv, O) else None)
 CLASSES["SpecListGrouper"].methods["add"] = C(CBQ + "SpecListGrouper.add")
-for _f, _t in (("cond", "Opt[CondCallable]"), ("priority", "int"), ("expected_value", "Val"), ("is_convention", "bool")):
+for _f, _t in (("cond", "Opt[CondCallable]"), ("priority", "int"), ("expected_value", "Val"), ("is_convention", "bool"), ("is_event", "bool")):
     CLASSES["CallbackSpec"].fields.setdefault(_f, _t)
+HEAP_SORTS.setdefault("CallbackSpec.is_event", z3.ArraySort(Int, Bool))
 
 # CallbackPriority / CallbackGroup values are read from the real enum bodies
 
@@ -216,6 +217,7 @@ def spec_ctor(ex, path, ca, node):
     path.store("CallbackSpec.func", sp.e, ref_of(vals["func"]))
     path.store("CallbackSpec.group", sp.e, ref_of(vals["group"]))
     path.store("CallbackSpec.is_convention", sp.e, vals["is_convention"].e)
+    path.store("CallbackSpec.is_event", sp.e, vals["is_event"].e)
     path.store("CallbackSpec.cond", sp.e, ref_of(vals["cond"]))
     path.store("CallbackSpec.priority", sp.e, vals["priority"].e)
     path.store("CallbackSpec.expected_value", sp.e, ref_of(vals["expected_value"]))
